@@ -318,7 +318,23 @@ def evaluate(pid, p, stream, ST, SDS, DS, extra=None):
     try:
         if extra and "first" in extra and pid != "C20":
             # the property must also hold for a tokenizer that was used before
-            if extra.get("consume") == "late":
+            if extra.get("consume") == "close-earlier":
+                # an earlier generator of the same tokenizer, partly consumed, is closed while the new run is in progress
+                t = mk(ST, p)
+                g1 = t.tokenize(SDS(extra["first"]), generator=True)
+                try:
+                    next(g1)
+                except StopIteration:
+                    pass
+                g2 = t.tokenize(SDS(stream), generator=True)
+                tk = []
+                try:
+                    tk.append(next(g2))
+                except StopIteration:
+                    pass
+                g1.close()
+                tk += list(g2)
+            elif extra.get("consume") == "late":
                 # generator obtained first, tokenizer used on another stream, generator drained afterwards
                 t = mk(ST, p)
                 g = t.tokenize(SDS(stream), generator=True)
@@ -378,6 +394,37 @@ def pre_check(pid):
             if Counting.asked > nblocks * 10:
                 return "split(max_read=%r): %d samples requested from the input in total, the limit is %d" % (
                     nblocks * 0.01, Counting.asked, nblocks * 10)
+        # a pathlib.Path input with large_file=True is read lazily: the first region arrives before the producer is done
+        import os as _os, tempfile as _tf, threading as _th, pathlib as _pl
+        dd = _tf.mkdtemp(prefix="c08p-")
+        fp = _os.path.join(dd, "live.raw")
+        _os.mkfifo(fp)
+        got_first = _th.Event()
+        state = {"written_at_first": None, "written": 0}
+
+        def feed():
+            with open(fp, "wb", buffering=0) as f:
+                for i in range(0, 240, 20):
+                    f.write(sig[i:i + 20])
+                    state["written"] += 20
+                got_first.wait(3)
+                f.write(sig[240:])
+                state["written"] = len(sig)
+        th = _th.Thread(target=feed, daemon=True)
+        th.start()
+        try:
+            for r in split(_pl.Path(fp), sr=1000, sw=2, ch=1, large_file=True, audio_format="raw", analysis_window=0.01, **kw):
+                if state["written_at_first"] is None:
+                    state["written_at_first"] = state["written"]
+                    got_first.set()
+        finally:
+            got_first.set()
+            th.join(5)
+            _os.remove(fp)
+            _os.rmdir(dd)
+        if state["written_at_first"] is None or state["written_at_first"] >= len(sig):
+            return "split(Path(named pipe), large_file=True): the first region was yielded only after the producer had written all %d " \
+                   "bytes (the whole input was loaded before anything was yielded)" % len(sig)
         # end of stream is requested from the input exactly once, also when the last window is a partial one
         class CountNone(BufferAudioSource):
             nones = 0
@@ -464,6 +511,29 @@ def pre_check(pid):
                 return "two-channel recorder, split number %d: %d regions with %r channels, expected %d with 2" % (
                     k + 1, len(got), sorted({g[1] for g in got}), len(ref2))
             rec.rewind()
+        # 'mix' selection: the verdict for a short window does not depend on a longer window judged before
+        vm = AudioEnergyValidator(50, 2, 2, use_channel="mix")
+        loud2, quiet2 = b"\x10\x27" * 40, bytes(16)
+        first_v = bool(AudioEnergyValidator(50, 2, 2, use_channel="mix").is_valid(quiet2))
+        vm.is_valid(loud2)
+        if bool(vm.is_valid(quiet2)) != first_v:
+            return "validator(use_channel='mix'): a silent 4-frame window is judged %r after a loud 20-frame window, %r by a fresh " \
+                   "validator" % (not first_v, first_v)
+        # an overlapping recorder on which a read was refused while closed still replays after rewind / open
+        rec = AudioReader(sig, block_dur=0.01, hop_dur=0.005, record=True, sr=1000, sw=2, ch=1)
+        rec.open()
+        refh = desc(split(rec, **{k_: v_ for k_, v_ in kw.items() if k_ != "analysis_window"}))
+        rec.rewind()
+        rec.close()
+        try:
+            rec.read()
+        except Exception:  # noqa
+            pass
+        rec.open()
+        goth = desc(split(rec, **{k_: v_ for k_, v_ in kw.items() if k_ != "analysis_window"}))
+        if goth != refh:
+            return "overlapping recorder: after a read refused on the closed reader, open() and split give %d regions, before %d" % (
+                len(goth), len(refh))
         for use in (None, 0):
             v = AudioEnergyValidator(50, 2, 1) if use is None else AudioEnergyValidator(50, 2, 2, use_channel=use)
             w1, w2 = (loud, quiet) if use is None else (loud + loud, quiet + quiet)
@@ -540,7 +610,7 @@ def search(pid, budget, maxlen):
             for p in params:
                 if phase == 1 and pid not in ("C20", "C08"):
                     for first in firsts:
-                        for consume in (None, 0, 1, "late"):
+                        for consume in (None, 0, 1, "late", "close-earlier"):
                             n += 1
                             ex = {"first": first, "consume": consume}
                             r = evaluate(pid, p, stream, ST, SDS, DS, ex)
